@@ -14,6 +14,7 @@ pickle / deepcopy probes) is judged by ContainersTrace.tla (TLC).
 """
 from __future__ import annotations
 
+import concurrent.futures as cf
 import random
 
 from .. import containers as C
@@ -26,7 +27,7 @@ AREA = "containers"
 KINDS = ("MultiDict", "ImmutableMultiDict", "Headers", "HeaderSet")
 
 
-def _key(rej, ln):
+def _key(rej):
     what = rej.get("what", "")
     k = f"{rej.get('kind', '?')}.{what}:{rej['clause']}"
     if rej.get("emp"):
@@ -34,34 +35,50 @@ def _key(rej, ln):
     return k
 
 
-def judge_scripts(ctx: Ctx, jobs, kind_of_case="c08"):
-    """jobs: list of (keys, steps).  Runs them on the real code, judges every line with TLC."""
-    args = [(t, keys, steps) for t, (keys, steps) in enumerate(jobs)]
-    results = pmap(C.run_script, args, workers=ctx.workers, chunksize=8)
-    lines = []
-    for ls in results:
-        lines += ls
-    ctx.count(sum(1 for ln in lines if ln["op"] != "begin"))
-    rejects = ctx.judge(AREA, "ContainersTrace", lines, batch=1500 if ctx.quick else 3000)
-    seen = set()
-    for r in sorted(rejects, key=lambda r: (r["t"], r["i"])):
-        if r["t"] in seen:
-            continue  # first rejected line of a trace: later ones are consequences
-        seen.add(r["t"])
-        keys, steps = jobs[r["t"]]
-        ln = results[r["t"]][r["i"]]
-        case = {"keys": keys, "steps": [{k: v for k, v in st.items() if k != "x"} for st in steps[: r["i"]]],
-                "line": {k: ln[k] for k in ("op", "o", "name", "how", "kind", "r") if k in ln}, "what": r.get("what")}
-        ctx.violation(_key(r, ln), r["clause"], case, kind=kind_of_case)
-    return lines
+def judge_scripts(ctx: Ctx, jobs, kind_of_case="c08", chunk=400):
+    """jobs: list of (keys, steps).  Runs them on the real code and judges every recorded line with TLC
+    (in chunks of scripts, to bound memory)."""
+    for base in range(0, len(jobs), chunk):
+        part = jobs[base: base + chunk]
+        args = [(t, keys, steps) for t, (keys, steps) in enumerate(part)]
+        results = pmap(C.run_script, args, workers=ctx.workers, chunksize=8)
+        lines = [ln for ls in results for ln in ls]
+        ctx.count(sum(1 for ln in lines if ln["op"] != "begin"))
+        rejects = ctx.judge(AREA, "ContainersTrace", lines, batch=2500)
+        stopped, reported = set(), set()
+        for r in sorted(rejects, key=lambda r: (r["t"], r["i"])):
+            # an ==/hash probe does not touch the objects: report it (once per trace and key) and go on;
+            # after the first other rejected line of a trace the later ones are consequences
+            if r["t"] in stopped:
+                continue
+            if r["clause"] != "EqHashConsistent":
+                stopped.add(r["t"])
+            keys, steps = part[r["t"]]
+            k = _key(r)
+            if (r["t"], k) in reported:
+                continue
+            reported.add((r["t"], k))
+            ln = results[r["t"]][r["i"]]
+            case = {"keys": keys, "steps": [{a: b for a, b in st.items() if a != "x"} for st in steps[: r["i"]]],
+                    "line": {a: ln[a] for a in ("op", "o", "name", "how", "kind", "r") if a in ln}, "what": r.get("what")}
+            ctx.violation(k, r["clause"], case, kind=kind_of_case)
+            vk = ctx.notes.setdefault("rejected_keys", {})
+            vk[k] = vk.get(k, 0) + 1
+
+
+def _par(ctx: Ctx, fns):
+    """run independent TLC invocations side by side (each is a separate JVM)"""
+    with cf.ThreadPoolExecutor(max_workers=max(1, min(len(fns), ctx.workers // 2))) as ex:
+        return [f.result() for f in [ex.submit(fn) for fn in fns]]
 
 
 def export_walks(ctx: Ctx, cfgs, maxlen):
     rng = random.Random(ctx.seed)
     jobs = []
     ntrans = 0
-    for kind, cfg in cfgs:
-        trans = [v for v in ctx.export(AREA, "MCQ", cfg, count_states=False, timeout=1800) if isinstance(v, dict) and "pre" in v]
+    exported = _par(ctx, [lambda cfg=cfg: ctx.export(AREA, "MCQ", cfg, count_states=False, timeout=1800) for _, cfg in cfgs])
+    for (kind, cfg), printed in zip(cfgs, exported):
+        trans = [v for v in printed if isinstance(v, dict) and "pre" in v]
         if not trans:
             raise tlc.MachineryError(f"no transitions exported for {kind} ({cfg})")
         ntrans += len(trans)
@@ -111,13 +128,14 @@ def run(ctx: Ctx):
         "equality of Headers is judged only by: same lines => equal, equal => same set of (lower name, value)",
     ]
     # 1. model checking
-    for kind in KINDS:
-        ctx.model_check(AREA, "MCQ", f"MCQ_{kind}", timeout=900)
+    w = max(2, ctx.workers // 4)
+    mcs = [lambda kind=kind: ctx.model_check(AREA, "MCQ", f"MCQ_{kind}", timeout=900, workers=w) for kind in KINDS]
+    mcs.append(lambda: ctx.model_check(AREA, "MCHS", "HeaderSetImpl_fixed", timeout=600, workers=2))
+    mcs.append(lambda: tlc.run_tlc(AREA, "MCHS", "HeaderSetImpl_orig", workers=2, tmp=ctx.tmp, allow_violation=True))
+    r = _par(ctx, mcs)[-1]
     if not q:
         for cfg in ("MCT_MultiDict", "MCT_Headers", "MCT_HeaderSet"):
             ctx.model_check(AREA, "MCQ", cfg, timeout=3000)
-    ctx.model_check(AREA, "MCHS", "HeaderSetImpl_fixed", timeout=600)
-    r = tlc.run_tlc(AREA, "MCHS", "HeaderSetImpl_orig", workers=ctx.workers, tmp=ctx.tmp, allow_violation=True)
     ctx.notes["pre_fix_headerset_impl_model_violates"] = r.invariant_violated
     if not r.invariant_violated:
         raise tlc.MachineryError("the implementation-shaped HeaderSet model of the pre-fix code no longer violates Refines")
@@ -126,7 +144,7 @@ def run(ctx: Ctx):
     cfgs = [(k, f"MCQ_{k}_x") for k in KINDS] if q else [(k, f"MCT_{k}_x") for k in KINDS]
     jobs = export_walks(ctx, cfgs, maxlen=30 if q else 40)
     # 3. code -> spec: seeded random scenarios
-    jobs += random_jobs(ctx, 700 if q else 12000, 14 if q else 18)
+    jobs += random_jobs(ctx, 320 if q else 3000, 12 if q else 16)
     judge_scripts(ctx, jobs)
 
 
